@@ -11,6 +11,7 @@ import PhotVerif.Driver.Render
 import PhotVerif.Driver.ApStats
 import PhotVerif.Driver.Psf
 import PhotVerif.Driver.Bkg
+import PhotVerif.Driver.Moments
 namespace PhotVerif.Driver
 
 /-- driver state: the objects that live across lines (state-machine models) -/
@@ -18,7 +19,7 @@ structure DState where
   segm : Option PhotVerif.Model.Segm.State := none
 
 def handlers : List (String → List String → Option String) :=
-  [handleGeom, handleMask, handleApSum, handleDetect, handleDeblend, handleLazy, handleCatalog, handlePeaks, handleRender, handleApStats, handlePsf, handleBkg]
+  [handleGeom, handleMask, handleApSum, handleDetect, handleDeblend, handleLazy, handleCatalog, handlePeaks, handleRender, handleApStats, handlePsf, handleBkg, handleMoments]
 
 def dispatch (st : DState) (line : String) : DState × String :=
   match tokens line with
